@@ -250,7 +250,7 @@ Theorem C04_pushu_popu_A_exact :
 Proof. split; [exact pushu_A|]. split; [exact popu_A|]. exact stack_opcodes_check. Qed.
 Print Assumptions C04_pushu_popu_A_exact.
 
-(* the same for IL (PUSHU only: one byte, the low byte of I) and the 2- and 3-byte registers: PUSHU BA / I / X / Y store the register little-endian at U-w (w = 2, 2, 3, 3; needs
+(* the same for IL (one byte, the low byte of I; POPU IL clears the high byte of I) and the 2- and 3-byte registers: PUSHU BA / I / X / Y store the register little-endian at U-w (w = 2, 2, 3, 3; needs
    U >= w) and leave U-w in U; POPU BA / I / X / Y load the w bytes at U (little-endian) into the register and leave U+w in U; every
    other register, flag and byte is untouched, for every state *)
 Theorem C04_pushu_popu_wide_exact :
@@ -259,16 +259,17 @@ Theorem C04_pushu_popu_wide_exact :
   stack_is_spec (mk_instr 43 [OReg RI 2] 1) 43 (fun s => 2 <= getr s gU) /\
   stack_is_spec (mk_instr 44 [OReg RX 3] 1) 44 (fun s => 3 <= getr s gU) /\
   stack_is_spec (mk_instr 45 [OReg RY 3] 1) 45 (fun s => 3 <= getr s gU) /\
+  stack_is_spec (mk_instr 57 [ORegIL] 1) 57 (fun _ => True) /\
   stack_is_spec (mk_instr 58 [OReg RBA 2] 1) 58 (fun _ => True) /\
   stack_is_spec (mk_instr 59 [OReg RI 2] 1) 59 (fun _ => True) /\
   stack_is_spec (mk_instr 60 [OReg RX 3] 1) 60 (fun _ => True) /\
   stack_is_spec (mk_instr 61 [OReg RY 3] 1) 61 (fun _ => True) /\
-  map (fun o => (d_cls (entry_of o), d_ops (entry_of o))) [41; 42; 43; 44; 45; 58; 59; 60; 61]%N =
+  map (fun o => (d_cls (entry_of o), d_ops (entry_of o))) [41; 42; 43; 44; 45; 57; 58; 59; 60; 61]%N =
   map (fun r => (I_PUSHU, [r])) [PRegIL; PReg RBA 2; PReg RI 2; PReg RX 3; PReg RY 3] ++
-  map (fun r => (I_POPU, [r])) [PReg RBA 2; PReg RI 2; PReg RX 3; PReg RY 3].
+  map (fun r => (I_POPU, [r])) [PRegIL; PReg RBA 2; PReg RI 2; PReg RX 3; PReg RY 3].
 Proof.
   split; [exact pushu_IL|]. split; [exact pushu_BA|]. split; [exact pushu_I|]. split; [exact pushu_X|]. split; [exact pushu_Y|].
-  split; [exact popu_BA|]. split; [exact popu_I|]. split; [exact popu_X|]. split; [exact popu_Y|]. exact stack_opcodes_check2.
+  split; [exact popu_IL|]. split; [exact popu_BA|]. split; [exact popu_I|]. split; [exact popu_X|]. split; [exact popu_Y|]. exact stack_opcodes_check2.
 Qed.
 Print Assumptions C04_pushu_popu_wide_exact.
 
